@@ -172,24 +172,86 @@ fn check_source(c: usize, h: usize, w: usize, max_dim: usize, vals: &[f32], out:
     }
 }
 
+/// Element counts beyond 2^24, where a count kept in single precision no longer distinguishes
+/// neighbours: (source, target) pairs whose counts differ by 1..3 must be refused, pairs with
+/// equal counts must be accepted and keep the sequence. One pair per case (each tensor holds
+/// 64..130 MB).
+fn huge_counts(idx: u64, out: &mut Out) {
+    let m = 1usize << 24;
+    // (source dims, target dims); a one-element list is a vector
+    let pairs: Vec<(Vec<usize>, Vec<usize>)> = vec![
+        (vec![m + 1], vec![1, 4096, 4096]),
+        (vec![1, 4096, 4096], vec![m + 1]),
+        (vec![97, 257, 673], vec![256, 256, 256]),
+        (vec![256, 256, 256], vec![97, 257, 673]),
+        (vec![m + 2], vec![2, 4096, 2048]),
+        (vec![4, 2048, 2048], vec![m - 1]),
+        (vec![m + 4], vec![4, 1024, 4097]),
+        (vec![2, 4097, 2048], vec![m + 4096]),
+        (vec![1, 4097, 4096], vec![m + 4096]),
+        (vec![(1usize << 25) + 2], vec![2, 4096, 4096]),
+        (vec![2, 4096, 4096], vec![(1usize << 25) + 3]),
+        (vec![3, 4096, 4096], vec![3 * m + 2]),
+    ];
+    let (src, dst) = pairs[(idx as usize) % pairs.len()].clone();
+    let count = |d: &Vec<usize>| d.iter().product::<usize>();
+    let (ns, nd) = (count(&src), count(&dst));
+    let name = |d: &Vec<usize>| d.iter().map(|x| x.to_string()).collect::<Vec<_>>().join("x");
+    out.key = format!("huge {} -> {}", name(&src), name(&dst));
+    let value = |i: usize| ((i % 65_521) as f32) - 0.5 * ((i / 65_521) % 7) as f32;
+    let t = if src.len() == 1 {
+        Tensor::single((0..ns).map(value).collect())
+    } else {
+        let (c, h, w) = (src[0], src[1], src[2]);
+        Tensor::triple((0..c).map(|a| (0..h).map(|b| (0..w).map(|e| value((a * h + b) * w + e)).collect()).collect()).collect())
+    };
+    let shape = if dst.len() == 1 { Shape::Single(dst[0]) } else { Shape::Triple(dst[0], dst[1], dst[2]) };
+    let r = guard(|| t.reshape(shape));
+    let detail = J::obj().set("source", J::usizes(&src)).set("target", J::usizes(&dst));
+    if ns != nd {
+        out.count("huge_unequal_count_reshapes_that_must_be_refused", 1);
+        if let Ok(r) = r {
+            out.viol("reshape:unequal-count-accepted:huge", format!("reshape {} -> {} ({} vs {} elements) was not refused; the result holds {} elements", name(&src), name(&dst), ns, nd, flat(&r).len()), detail);
+        }
+    } else {
+        out.count("huge_equal_count_reshapes", 1);
+        match r {
+            Err(m) => out.viol("reshape:panic:huge", format!("reshape {} -> {} (equal counts) panicked: {}", name(&src), name(&dst), short(&m, 160)), detail),
+            Ok(r) => {
+                let got = flat(&r);
+                if got.len() != ns || !shape_consistent(&r) || shape_dims(&r.shape) != dst {
+                    out.viol("reshape:shape:huge", format!("reshape {} -> {} gives shape {:?} with {} elements", name(&src), name(&dst), shape_dims(&r.shape), got.len()), detail);
+                } else if let Some(i) = (0..ns).find(|i| got[*i].to_bits() != value(*i).to_bits()) {
+                    out.viol("reshape:sequence:huge", format!("reshape {} -> {} does not preserve the row-major sequence (first difference at element {})", name(&src), name(&dst), i), detail);
+                }
+            }
+        }
+    }
+}
+
 impl Monitor for C14 {
     fn id(&self) -> &'static str {
         "C14"
     }
     fn gens(&self, tier: Tier) -> Vec<(&'static str, u64)> {
         match tier {
-            Tier::Quick => vec![("grid6", 216 * 3), ("random", 1500), ("large", 96)],
-            Tier::Thorough => vec![("grid6", 216 * 3), ("grid8", 512 * 3), ("random", 30_000), ("large", 1500)],
+            Tier::Quick => vec![("grid6", 216 * 3), ("random", 1500), ("large", 96), ("huge_counts", 12)],
+            Tier::Thorough => vec![("grid6", 216 * 3), ("grid8", 512 * 3), ("random", 30_000), ("large", 1500), ("huge_counts", 24)],
         }
     }
     fn rule(&self) -> &'static str {
-        "grid: case = (source shape c x h x w in 1..D^3, content kind in {index-valued, random, special values incl. -0, denormals, +-MAX, NaN, +-inf}); every case runs Tensor::triple, flatten, get_flat, single, get_triple and reshape towards every target in 1..D^3, every factorisation of the element count, and (1,1,k)-style targets with k in {n-1, n, n+1, 2n}: equal-count targets must preserve the bit-exact row-major sequence, record a shape that matches the nesting, and round-trip to the identity; unequal-count targets (3D->3D, vector->3D, 3D->vector) must be refused by panic. random: source dims up to 12. large: element counts {4095..4097, 8192, 16383..16385, 20000, 30030, 32768, 65536, 65537, 100000, 131072} in a random factorisation c x h x w (mostly non-square planes), same checks."
+        "grid: case = (source shape c x h x w in 1..D^3, content kind in {index-valued, random, special values incl. -0, denormals, +-MAX, NaN, +-inf}); every case runs Tensor::triple, flatten, get_flat, single, get_triple and reshape towards every target in 1..D^3, every factorisation of the element count, and (1,1,k)-style targets with k in {n-1, n, n+1, 2n}: equal-count targets must preserve the bit-exact row-major sequence, record a shape that matches the nesting, and round-trip to the identity; unequal-count targets (3D->3D, vector->3D, 3D->vector) must be refused by panic. random: source dims up to 12. large: element counts {4095..4097, 8192, 16383..16385, 20000, 30030, 32768, 65536, 65537, 100000, 131072} in a random factorisation c x h x w (mostly non-square planes), same checks. huge_counts: twelve (source, target) pairs with 2^24 .. 3 x 2^24 elements whose counts differ by 1..4096 (a count kept in single precision cannot tell them apart: must be refused) or are equal (must be accepted, bit-exact sequence), vector->3D, 3D->vector and 3D->3D."
     }
     fn assumptions(&self) -> Vec<&'static str> {
         vec!["Single->Single reshape with a different length is outside the refusal clause (vector<->3-D and 3-D<->3-D only); whatever it returns must still carry a recorded shape that matches its data"]
     }
     fn run(&self, gen: &str, seed: u64, idx: u64, _tier: Tier) -> Out {
         let mut rng = Rng::stream(seed, gen, idx);
+        if gen == "huge_counts" {
+            let mut out = Out::new(String::new());
+            huge_counts(idx, &mut out);
+            return out;
+        }
         let (c, h, w, kind, maxd) = match gen {
             "grid4" => {
                 let s = (idx / 3) as usize;
